@@ -2574,15 +2574,16 @@ impl Archive {
         let actual_size = if let Some(bet_pos) = self.header.bet_table_pos {
             if bet_pos > het_pos {
                 // BET table comes after HET
-                bet_pos - het_pos
+                Some(bet_pos - het_pos)
             } else {
                 // Calculate from hash table position
-                self.header.get_hash_table_pos() - het_pos
+                self.header.get_hash_table_pos().checked_sub(het_pos)
             }
         } else {
             // Calculate from hash table position
-            self.header.get_hash_table_pos() - het_pos
-        };
+            self.header.get_hash_table_pos().checked_sub(het_pos)
+        }
+        .ok_or_else(|| Error::invalid_format("HET table lies behind the hash table"))?;
 
         log::debug!("HET table position: 0x{het_pos:X}, calculated size: {actual_size} bytes");
 
@@ -2595,7 +2596,11 @@ impl Archive {
         log::debug!("Determining BET table size from file structure");
 
         // Calculate the actual size based on what comes after BET table (usually hash table)
-        let actual_size = self.header.get_hash_table_pos() - bet_pos;
+        let actual_size = self
+            .header
+            .get_hash_table_pos()
+            .checked_sub(bet_pos)
+            .ok_or_else(|| Error::invalid_format("BET table lies behind the hash table"))?;
 
         log::debug!("BET table position: 0x{bet_pos:X}, calculated size: {actual_size} bytes");
 
